@@ -5,8 +5,10 @@ obligation whose key contains `expect`. Written to /verif/mutants.json."""
 import json
 
 M = []
-def m(id, prop, file, find, replace, expect, note="", extra=None):
+def m(id, prop, file, find, replace, expect, note="", extra=None, count=None):
     d = dict(id=id, property=prop, file=file, find=find, replace=replace, expect=expect, note=note)
+    if count:
+        d["count"] = count
     if extra:
         d["extra"] = [dict(find=f, replace=r) for f, r in extra]
     M.append(d)
@@ -675,6 +677,42 @@ m("c20-startup-touches-state", "C20", "app/app.go",
   "\tapp.ScopedIBCKeeper = scopedIBCKeeper\n", "\tif loadLatest && app.LastBlockHeight() > 0 {\n\t\t_ = app.AccountKeeper.GetModuleAccount(app.BaseApp.NewUncachedContext(true, tmproto.Header{Height: app.LastBlockHeight()}), ucdaotypes.ModuleName)\n\t}\n\tapp.ScopedIBCKeeper = scopedIBCKeeper\n",
   "creates-context", "a start-up routine reads (and creates) module accounts outside any block",
   extra=[("\tabci \"github.com/cometbft/cometbft/abci/types\"\n", "\tabci \"github.com/cometbft/cometbft/abci/types\"\n\ttmproto \"github.com/cometbft/cometbft/proto/tendermint/types\"\n")])
+
+# ---------------- rules added from the wave-5 seeds ----------------
+m("c01-basefee-step-in-place", "C01", "x/feemarket/keeper/eip1559.go",
+  "\t\treturn x.Add(parentBaseFee, baseFeeDelta)\n", "\t\treturn baseFeeDelta.Add(parentBaseFee, baseFeeDelta)\n",
+  "mutates-shared-number", "the minimum step overwrites go-ethereum's shared common.Big1")
+m("c01-storage-prefix-presized", "C01", "x/evm/types/key.go",
+  "\tKeyPrefixStorage = []byte{prefixStorage}\n", "\tKeyPrefixStorage = append(make([]byte, 0, 1+common.AddressLength), prefixStorage)\n",
+  "appended-prefix-has-no-spare-capacity", "the storage key prefix has spare capacity: appends share one backing array with concurrent queries")
+m("c02-suicide-twice-early-return", "C02", "x/evm/statedb/statedb.go",
+  "\ts.journal.append(suicideChange{\n", "\tif stateObject.suicided {\n\t\treturn true\n\t}\n\ts.journal.append(suicideChange{\n",
+  "clears-balance", "a second SELFDESTRUCT leaves the refunded balance with the contract")
+m("c03-eip712-message-cap", "C03", "ethereum/eip712/message.go",
+  "\treturn rawMsgs.Array(), nil\n", "\tmsgs := rawMsgs.Array()\n\tif len(msgs) > 1024 {\n\t\tmsgs = msgs[:1024]\n\t}\n\treturn msgs, nil\n",
+  "R11@", "messages beyond a cap are executed but not hashed")
+m("c04-ics20-update-grant-swapped", "C04", "precompiles/ics20/approve_common.go",
+  "\t\terr = authzKeeper.SaveGrant(ctx, grantee.Bytes(), granter.Bytes(), resp.Updated, expiration)\n", "\t\terr = authzKeeper.SaveGrant(ctx, granter.Bytes(), grantee.Bytes(), resp.Updated, expiration)\n",
+  "grantee-granter", "the remaining transfer allowance is saved under the reverse grant")
+m("c05-log-revert-clears", "C05", "x/evm/statedb/journal.go",
+  "\ts.logs = s.logs[:len(s.logs)-1]\n", "\ts.logs = s.logs[:0]\n",
+  "log-list-cut-to-recorded-length", "reverting one log drops the logs of successful frames too")
+m("c05-undelegate-consumes-grant-first", "C05", "precompiles/staking/tx.go",
+  "\t// Execute the transaction using the message server\n\tmsgSrv := stakingkeeper.NewMsgServerImpl(&p.stakingKeeper)\n\tres, err := msgSrv.Undelegate(sdk.WrapSDKContext(ctx), msg)\n\tif err != nil {\n\t\treturn nil, err\n\t}\n\n\t// Only update the authorization if the contract caller is different from the origin\n\tif !isCallerOrigin {\n\t\tif err := p.UpdateStakingAuthorization(ctx, contract.CallerAddress, delegatorHexAddr, stakeAuthz, expiration, UndelegateMsg, msg); err != nil {\n\t\t\treturn nil, err\n\t\t}\n\t}\n",
+  "\tif !isCallerOrigin {\n\t\tif err := p.UpdateStakingAuthorization(ctx, contract.CallerAddress, delegatorHexAddr, stakeAuthz, expiration, UndelegateMsg, msg); err != nil {\n\t\t\treturn nil, err\n\t\t}\n\t}\n\n\t// Execute the transaction using the message server\n\tmsgSrv := stakingkeeper.NewMsgServerImpl(&p.stakingKeeper)\n\tres, err := msgSrv.Undelegate(sdk.WrapSDKContext(ctx), msg)\n\tif err != nil {\n\t\treturn nil, err\n\t}\n",
+  "effect-is-the-first-write", "the allowance is consumed before the fallible undelegation")
+for prop in ("C08", "C09"):
+    m("c%s-addgrant-start-written-early" % prop[1:], prop, "x/vesting/keeper/msg_server.go",
+      "\tnewVestingStart, newVestingEnd, newVestingPeriods := types.DisjunctPeriods(accStartTime, grantStartTime, va.GetVestingPeriods(), grantVestingPeriods)\n",
+      "\tva.StartTime = time.Unix(newLockupStart, 0).UTC()\n\tnewVestingStart, newVestingEnd, newVestingPeriods := types.DisjunctPeriods(va.GetStartTime(), grantStartTime, va.GetVestingPeriods(), grantVestingPeriods)\n",
+      "merges-before-write-back", "the vesting merge reads the already updated start time")
+m("c09-create-skips-period-amount", "C09", "x/vesting/types/msg.go",
+  "\t\tif !period.Amount.IsValid() {\n\t\t\treturn errortypes.ErrInvalidCoins.Wrap(period.Amount.String())\n\t\t}\n\t\tvestingCoins = vestingCoins.Add(period.Amount...)\n",
+  "\t\tvestingCoins = vestingCoins.Add(period.Amount...)\n",
+  "VestingPeriods/amount-valid", "vesting period amounts are no longer validated one by one", count=2)
+m("c10-pair-lookup-by-metadata", "C10", "x/erc20/keeper/token_pairs.go",
+  "\treturn k.GetDenomMap(ctx, token)\n}", "\tif md, ok := k.bankKeeper.GetDenomMetaData(ctx, token); ok && md.Base != token {\n\t\treturn k.GetDenomMap(ctx, md.Base)\n\t}\n\treturn k.GetDenomMap(ctx, token)\n}",
+  "keyed-read-only", "an unregistered denomination resolves to the pair of its metadata's base")
 
 json.dump(M, open('/verif/mutants.json', 'w'), indent=1)
 print(len(M), "mutants written")
